@@ -163,3 +163,31 @@ pub fn serde_line(src: &str) -> String {
 pub fn serde_line(_: &str) -> String {
     "harness built without the serde feature".to_string()
 }
+
+
+struct Fickle {
+    first: String,
+    later: String,
+    calls: std::cell::Cell<usize>,
+}
+
+impl AsRef<str> for &Fickle {
+    fn as_ref(&self) -> &str {
+        let n = self.calls.get();
+        self.calls.set(n + 1);
+        if n == 0 { &self.first } else { &self.later }
+    }
+}
+
+/// parse_source / Parser::expression on a source whose AsRef<str> changes between calls
+pub fn fickle_line(first: &str, later: &str) -> String {
+    let f = Fickle { first: first.to_string(), later: later.to_string(), calls: std::cell::Cell::new(0) };
+    let line = match gosyn::parse_source(&f) {
+        Ok(file) => format!("OK {} | {}", walk::file(&file), walk::comments(&file.comments)),
+        Err(e) => walk::error_line(&e),
+    };
+    let calls = f.calls.get();
+    let g = Fickle { first: first.to_string(), later: later.to_string(), calls: std::cell::Cell::new(0) };
+    let _ = gosyn::Parser::from(&g).expression();
+    format!("{}+{} {}", calls, g.calls.get(), line)
+}
